@@ -615,3 +615,100 @@ Qed.
 Lemma copy_peak_example :
   copy_peak (Z.to_nat 2080) sz_FramebufferUpdateMsg = 32756 /\ copy_ublen (Z.to_nat 2080) sz_FramebufferUpdateMsg = 528.
 Proof. split; vm_compute; reflexivity. Qed.
+
+(* ------------------------------------------------------------------ the repaired count stage (F5) *)
+Lemma tight_known_emitted : forall pref lastrect cmw cmh region, 1 <= cmw -> 1 <= cmh -> Forall nondeg region ->
+  tight_unknown pref lastrect region = false ->
+  exists k, emitted_len (emit_region pref lastrect cmw cmh region) = Some k /\
+            n_region_rects pref lastrect cmw cmh region = Some k /\ Z.of_nat (length region) <= k.
+Proof.
+  intros pref lastrect cmw cmh region Hcw Hch Hnd Hu.
+  assert (E : exists k, emitted_len (emit_region pref lastrect cmw cmh region) = Some k).
+  { induction region as [|r t IH]; [exists 0; reflexivity|].
+    inversion Hnd as [|? ? Hr Ht]; subst. cbn [emit_region emitted_len].
+    assert (Hu' : tight_unknown pref lastrect t = false).
+    { unfold tight_unknown in *. destruct (is_tight_class pref); [|reflexivity]. cbn [andb existsb] in *.
+      apply orb_false_iff in Hu. tauto. }
+    destruct (IH Ht Hu') as [kt Ekt]. rewrite Ekt.
+    pose proof (emit_rect_count pref lastrect cmw cmh r Hcw Hch Hr) as Hrc.
+    destruct (emit_rect pref lastrect cmw cmh r) as [l|r'|]; [eexists; reflexivity| |contradiction].
+    exfalso. destruct Hrc as (-> & _ & Hc & Hz). destruct r as [[[x y] w] h].
+    unfold tight_unknown, is_tight_class in Hu. unfold rect_count in Hz.
+    destruct Hc as [Hc|Hc]; rewrite Hc in *; cbn [andb existsb] in Hu; apply orb_false_iff in Hu;
+      destruct Hu as [Hu _]; inversion Hz as [Hz']; rewrite Hz' in Hu; discriminate. }
+  destruct E as [k Ek]. exists k. split; [exact Ek|].
+  destruct (emitted_len_sum _ _ _ _ _ _ Hcw Hch Hnd Ek) as (S1 & S2 & S3).
+  split; [apply (n_region_exact _ _ _ _ _ _ S1 S3)|exact S2].
+Qed.
+
+Lemma tight_unknown_lastrect : forall pref lastrect region, Forall nondeg region ->
+  tight_unknown pref lastrect region = true -> lastrect = true /\ is_tight_class pref = true.
+Proof.
+  intros pref lastrect region Hnd Hu. unfold tight_unknown in Hu. apply andb_true_iff in Hu. destruct Hu as [Ht Hex].
+  split; [|exact Ht]. apply existsb_exists in Hex. destruct Hex as ([[[x y] w] h] & Hin & Hz).
+  rewrite Forall_forall in Hnd. specialize (Hnd _ Hin). cbn in Hnd. destruct Hnd as [Hw Hh].
+  apply (tight_unknown_needs_lastrect lastrect w h). apply (count_tight_zero_iff lastrect x y w h Hw Hh). lia.
+Qed.
+
+Lemma announce_fixed_tail : forall pref lastrect cmw cmh maxrects region1 ncopy npseudo k1,
+  n_region_rects pref lastrect cmw cmh region1 = Some k1 -> k1 <> 65535 ->
+  (let '(region2, n2) :=
+     if (maxrects >? 0) && negb (exempt_from_coalescing pref) && (k1 >? maxrects)
+     then ([bbox_of region1], 1) else (region1, k1) in
+   Some (wrap16 (ncopy + n2 + npseudo), region2, false)) =
+  announce pref lastrect cmw cmh maxrects region1 ncopy npseudo.
+Proof.
+  intros. unfold announce. rewrite H. cbn [obind]. destruct (k1 =? 65535) eqn:E; [lia|]. reflexivity.
+Qed.
+
+(* C03_update_count for the repaired code: no "count <> 65535" hypothesis any more *)
+Lemma update_count_fixed : forall pref lastrect cmw cmh maxrects region ncopy npseudo n region' lm,
+  1 <= cmw -> 1 <= cmh -> Forall nondeg region -> region <> [] -> 0 <= ncopy -> 0 <= npseudo <= 6 ->
+  (forall kb, emitted_len (emit_region pref lastrect cmw cmh [bbox_of region]) = Some kb -> ncopy + kb + 6 < 65535) ->
+  announce_fixed pref lastrect cmw cmh maxrects region ncopy npseudo = Some (n, region', lm) ->
+  (lm = true -> n = 65535 /\ lastrect = true /\ is_tight_class pref = true) /\
+  (lm = false -> exists k, emitted_len (emit_region pref lastrect cmw cmh region') = Some k /\
+                           n = ncopy + k + npseudo /\ n < 65535).
+Proof.
+  intros pref lastrect cmw cmh maxrects region ncopy npseudo n region' lm Hcw Hch Hnd Hne Hnc Hnp Hbb Ha.
+  assert (Fin : forall region1 k1, Forall nondeg region1 ->
+            emitted_len (emit_region pref lastrect cmw cmh region1) = Some k1 ->
+            n_region_rects pref lastrect cmw cmh region1 = Some k1 -> ncopy + k1 + 6 < 65535 ->
+            announce pref lastrect cmw cmh maxrects region1 ncopy npseudo = Some (n, region', lm) ->
+            lm = false /\ exists k, emitted_len (emit_region pref lastrect cmw cmh region') = Some k /\
+                                    n = ncopy + k + npseudo /\ n < 65535).
+  { intros region1 k1 Hnd1 Ek1 En1 Hb1 Ha1.
+    destruct (update_count pref lastrect cmw cmh maxrects region1 ncopy npseudo n region' lm k1 Hcw Hch Hnd1 Hnc
+                           ltac:(lia) Ha1 Ek1 ltac:(lia)) as (k' & Ek' & Hn & Hlm & _ & Hle).
+    split; [exact Hlm|]. exists k'. split; [exact Ek'|]. rewrite Hn by lia. lia. }
+  unfold announce_fixed in Ha. unfold count_stage in Ha at 1.
+  destruct (tight_unknown pref lastrect region) eqn:Eu.
+  - (* LastRect mode *)
+    cbn [obind negb andb] in Ha. inversion Ha; subst n region' lm.
+    destruct (tight_unknown_lastrect pref lastrect region Hnd Eu) as [L T].
+    split; [intros _; auto|discriminate].
+  - destruct (tight_known_emitted pref lastrect cmw cmh region Hcw Hch Hnd Eu) as (k & Ek & En & Hlen).
+    rewrite En in Ha. cbn [obind negb andb] in Ha.
+    destruct (ncopy + k + 6 >=? 65535) eqn:Ebig.
+    + (* coalesced to the bounding box and counted again *)
+      destruct region as [|r t]; [contradiction|]. inversion Hnd as [|? ? Hr Ht]; subst.
+      pose proof (bbox_nondeg r t Hr Ht) as Hb.
+      assert (Hndb : Forall nondeg [bbox_of (r :: t)]) by (constructor; [exact Hb|constructor]).
+      unfold count_stage in Ha. destruct (tight_unknown pref lastrect [bbox_of (r :: t)]) eqn:Eub.
+      * cbn [obind] in Ha. inversion Ha; subst n region' lm.
+        destruct (tight_unknown_lastrect pref lastrect _ Hndb Eub) as [L T].
+        split; [intros _; auto|discriminate].
+      * destruct (tight_known_emitted pref lastrect cmw cmh _ Hcw Hch Hndb Eub) as (kb & Ekb & Enb & _).
+        rewrite Enb in Ha. cbn [obind] in Ha. specialize (Hbb kb Ekb).
+        rewrite (announce_fixed_tail pref lastrect cmw cmh maxrects [bbox_of (r :: t)] ncopy npseudo kb Enb ltac:(lia)) in Ha.
+        destruct (Fin _ kb Hndb Ekb Enb Hbb Ha) as [Hlm Hk]. split; [intro Q; rewrite Q in Hlm; discriminate|intros _; exact Hk].
+    + cbn [obind] in Ha.
+      rewrite (announce_fixed_tail pref lastrect cmw cmh maxrects region ncopy npseudo k En ltac:(lia)) in Ha.
+      destruct (Fin _ k Hnd Ek En ltac:(lia) Ha) as [Hlm Hk]. split; [intro Q; rewrite Q in Hlm; discriminate|intros _; exact Hk].
+Qed.
+
+Lemma announce_fixed_examples :
+  (exists r', announce_fixed enc_Raw false 48 48 0 (repeat (0, 0, 1, 1) (Z.to_nat 300)) 65400 0 = Some (65401, r', false)) /\
+  announce_fixed enc_Tight true 48 48 50 [(0, 0, 64, 64)] 0 0 = Some (65535, [(0, 0, 64, 64)], true) /\
+  announce_fixed enc_CoRRE false 48 48 50 [(0, 0, 100, 50); (0, 50, 10, 10)] 2 1 = Some (10, [(0, 0, 100, 50); (0, 50, 10, 10)], false).
+Proof. split; [eexists; vm_compute; reflexivity|split; reflexivity]. Qed.
